@@ -14,4 +14,5 @@ import EvyV.Props.C16
 import EvyV.Props.C17
 import EvyV.Props.C17Sym
 import EvyV.Props.C18
+import EvyV.Props.C19
 import EvyV.Props.C20
